@@ -17,15 +17,11 @@ func init() {
 			Kind: slip.MacroSymbol,
 			Name: "psetf",
 			Args: []*slip.DocArg{
+				{Name: "&rest"},
 				{
-					Name: "placer",
-					Type: "placer",
-					Text: "The symbol to bind to the _value_.",
-				},
-				{
-					Name: "value",
+					Name: "place-value-pairs",
 					Type: "object",
-					Text: "The value to assign to _symbol.",
+					Text: "Any number of pairs of a _place_, which is not evaluated, and the _value_ to assign to it.",
 				},
 			},
 			Return: "object",
